@@ -158,13 +158,25 @@ def run(model: RepoModel, rep, tier: str):
                     recursive = any(isinstance(x, ast.Call) and is_self_attr(x.func, f.name) for x in walk_no_nested(f.node))
                     in_loop = [h for h, body in cfg.loop_body_nodes.items() if (unlink & reach) & body]
                     stop_ok = False
+                    weak_stop = None
                     for h in in_loop:
                         for k in cfg.loop_body_nodes[h]:
                             s3 = cfg.stmt.get(k)
                             if cfg.kind[k] == "test" and isinstance(s3, ast.If) and _mentions_attr(s3.test, "is_terminal") \
                                     and _mentions_attr(s3.test, "children") and any(isinstance(b, (ast.Break, ast.Return)) for b in s3.body):
-                                stop_ok = True
-                    if (in_loop and stop_ok) or recursive:
+                                # the walk has to stop at a node with ANY child left (one child is one stored longer path)
+                                disj = s3.test.values if isinstance(s3.test, ast.BoolOp) and isinstance(s3.test.op, ast.Or) else [s3.test]
+                                ch = [d for d in disj if _mentions_attr(d, "children")]
+                                if ch and all(_nonempty_test(d, "children") for d in ch):
+                                    stop_ok = True
+                                else:
+                                    weak_stop = s3
+                    if in_loop and not stop_ok and weak_stop is not None and not recursive:
+                        rep.violation("C19.R2", key, FILE, weak_stop.lineno,
+                                      f"{f.qualname} stops unlinking ancestors under `{norm(weak_stop.test)}`, which is not 'the node has any "
+                                      f"child left': an ancestor that still leads to exactly one stored path is unlinked together with that "
+                                      f"path's nodes, so a path that was never removed is no longer reachable in the trie")
+                    elif (in_loop and stop_ok) or recursive:
                         rep.holds("C19.R2", key, FILE, st.lineno,
                                   "dead branch is unlinked ancestor by ancestor, stopping at the first terminal or branching node")
                     elif in_loop:
@@ -354,6 +366,24 @@ def run(model: RepoModel, rep, tier: str):
              "later paths (PathManager never builds an empty path for a frame with a caller)")
 
 
+def _nonempty_test(e: ast.AST, attr: str) -> bool:
+    """e is true exactly when `<x>.<attr>` is non-empty: truthiness of the collection or of its len(), len(..) > 0 / >= 1 / != 0"""
+    def coll(x):
+        return _attr_named(x, attr)
+
+    def length(x):
+        return isinstance(x, ast.Call) and call_name(x) == "len" and len(x.args) == 1 and coll(x.args[0])
+    if coll(e) or length(e):
+        return True
+    if isinstance(e, ast.Compare) and len(e.ops) == 1:
+        l, op, r = e.left, e.ops[0], e.comparators[0]
+        if length(l) and isinstance(r, ast.Constant):
+            return (isinstance(op, (ast.Gt, ast.NotEq)) and r.value == 0) or (isinstance(op, ast.GtE) and r.value == 1)
+        if length(r) and isinstance(l, ast.Constant):
+            return (isinstance(op, (ast.Lt, ast.NotEq)) and l.value == 0) or (isinstance(op, ast.LtE) and l.value == 1)
+    return False
+
+
 def _clears_terminal(f: Optional[Func]) -> bool:
     if f is None:
         return False
@@ -395,6 +425,8 @@ MUTANTS = [
     ("prune-one-level", FILE, lambda src: __import__("sa.mutate", fromlist=["x"]).replace_stmt_where(
         src, "PathTrie", "_mark_non_terminal", lambda st: isinstance(st, ast.For) and any(isinstance(x, ast.Delete) for x in ast.walk(st)),
         "if visited and not node.children:\n    parent, elem = visited[-1]\n    del parent.children[elem]"), "PathTrie._mark_non_terminal"),
+    ("prune-stops-only-at-branching", FILE, lambda src: src.replace("if child.is_terminal or child.children:", "if child.is_terminal or len(child.children) > 1:"),
+     "PathTrie._mark_non_terminal"),
     ("negative-check-last-only", FILE, lambda src: __import__("sa.mutate", fromlist=["x"]).replace_stmt_where(
         src, "CallPath", "has_any_negative", lambda st: isinstance(st, ast.For),
         "if self.path and self.path[-1].has_negative():\n    return True"), "has_any_negative"),
